@@ -318,6 +318,15 @@ theorem c09_cgi_envp_roundtrip (env : List (Bytes × Bytes))
 example : envpDecode (envpEncode [(ofString "QUERY_STRING", ofString "a=b"), (ofString "X", [])]) =
     some [(ofString "QUERY_STRING", ofString "a=b"), (ofString "X", [])] := by decide
 
+/-- mod_cgi: what the script reads on its standard input is the body received so far, and its
+    input ends exactly when Content-Length bytes were passed (for every arrival schedule) -/
+theorem c09_cgi_stdin (bodyLen : Int) (segs : List Bytes) :
+    (cgiStdin bodyLen segs).out = segs.flatten ∧
+    ((cgiStdin bodyLen segs).eof = true ↔ (segs.flatten.length : Int) = bodyLen) := by
+  simp [cgiStdin]
+
+example : cgiStdin 3 [ofString "a", [], ofString "bc"] = { out := ofString "abc", eof := true } := by decide
+
 /-! ## reverse proxy -/
 
 /-- proxy_create_env(): for every configuration and field, a field that is forwarded is not a
